@@ -519,7 +519,16 @@ func builtinLoadFile(env *LEnv, args *LVal) *LVal {
 	// stack but the stack frame TROBlock will prevent tail recursion
 	// optimization from unwinding the stack to/beyond this point.
 	env.Runtime.Stack.Top().TROBlock = true
-	v := env.root().LoadFile(loc.Str)
+	// An error the loader itself raises -- the library does not have the
+	// file -- is created on the root environment and takes THAT
+	// environment's location, which is wherever its own evaluation last
+	// stood: the enclosing top-level form or one of its sub-forms.  The
+	// failing form is this call, so the root stands here while it loads.
+	root := env.root()
+	rootLoc := root.loc
+	root.loc = env.loc
+	defer func() { root.loc = rootLoc }()
+	v := root.LoadFile(loc.Str)
 	if v.Type == LError && v.CallStack() == nil {
 		v.SetCallStack(env.Runtime.Stack.Copy())
 	}
